@@ -58,6 +58,7 @@ def check(ctx):
     _steepest(rep, model)
     _stepsizes(rep, model)
     _default_relaxation(rep, model)
+    _norm_helper(rep, model)
     _saved_iterates(ctx, rep)
     _power_method(rep, model)
     _pdhg_steps(rep, model)
@@ -411,6 +412,77 @@ def _stepsizes(rep, model):
             except PyRaise as e:
                 rep.violation('R2', 'douglas_rachford_pd_stepsize',
                               '%s: raises %s' % (tag, e.name), DR, fn.lineno)
+
+
+# --------------------------------------------------------------------------
+def _norm_helper(rep, model):
+    """R2n: `_operator_norms`, the helper behind the Douglas-Rachford default
+    steps, returns for every entry kind (operator symbol, scaled operators
+    c * A and A * c with c of either sign, plain number) the non-negative
+    number |c| * ||A||.  `Operator.norm(estimate=True)` on an arithmetic
+    node is summarised by the homogeneity of the norm."""
+    from ..symex import Bound
+    fn = model.ctx.func(DR, '_operator_norms')
+
+    def true_norm(I, op):
+        if isinstance(op, OpV):
+            return Rat.var(satom('opnorm', op.term.name))
+        if isinstance(op, Inst) and op.ci.name in (
+                'OperatorLeftScalarMult', 'OperatorRightScalarMult'):
+            c = to_rat(I.getattr_value(op, 'scalar'))
+            if not c.is_const():
+                raise Undecided('norm of an operator scaled by %r' % (c,))
+            return Rat.const(abs(c.constant())) * true_norm(
+                I, I.getattr_value(op, 'operator'))
+        raise Undecided('norm of %r' % (op,))
+
+    class H(SolverHooks):
+        def on_call(self, interp, f, args, kwargs, node):
+            if isinstance(f, Bound) and f.func.name == 'norm' and \
+                    isinstance(f.selfv, Inst):
+                return true_norm(interp, f.selfv)
+            return SolverHooks.on_call(self, interp, f, args, kwargs, node)
+
+    n = 0
+    for tag, build in (
+            ('A', lambda I, A: A),
+            ('2 * A', lambda I, A: I.binop(ast.Mult, Rat.const(2), A)),
+            ('-2 * A', lambda I, A: I.binop(ast.Mult, Rat.const(-2), A)),
+            ('A * (-3)', lambda I, A: I.binop(ast.Mult, A, Rat.const(-3))),
+            ('-(1/2) * A', lambda I, A: I.binop(
+                ast.Mult, Rat.const(Fr(-1, 2)), A)),
+            ('3', lambda I, A: Rat.const(3))):
+        cons = '_operator_norms[%s]' % tag
+        n += 1
+
+        def once(assume):
+            hooks = H()
+            I = Interp(model, assume, hooks)
+            e = Env(I, hooks)
+            A = I.opsym('A', e.X, e.Y, True)
+            op = build(I, A)
+            want = to_rat(op) if is_scalar(op) else true_norm(I, op)
+            got = I.call_func(Func(fn, I.env_of(DR), None), [[op]], {})
+            return want, got
+        try:
+            ok = True
+            for a, (want, got) in explore(once, limit=10):
+                if not isinstance(got, (list, tuple)) or len(got) != 1 or \
+                        not is_scalar(got[0]) or to_rat(got[0]) != want:
+                    ok = False
+                    rep.violation(
+                        'R2n', '_operator_norms',
+                        '%s: the norm used for the default steps is %r, the '
+                        'operator norm is %r' % (cons, got, want), DR,
+                        fn.lineno)
+            if ok:
+                rep.holds('R2n', cons, 'norm %r' % (want,))
+        except Undecided as e:
+            rep.undecided('R2n', cons, str(e), DR, fn.lineno)
+        except PyRaise as e:
+            rep.violation('R2n', '_operator_norms', '%s: raises %s' % (
+                cons, e.name), DR, fn.lineno)
+    rep.floor('R2n', 'entry kinds of _operator_norms', n, 6)
 
 
 # --------------------------------------------------------------------------
